@@ -69,7 +69,13 @@ def make_code(rng, ctx):
         ctx.feature('code_blank_lines_only')
         return b'\n' * rng.randint(1, 4)
     ctx.feature('code_simple')
-    return carts.varied_lua(rng, rng.choice((30, 500, 5000)))
+    code = carts.varied_lua(rng, rng.choice((30, 500, 5000)))
+    if rng.random() < 0.3:
+        # the text of a long-bracket opener where it opens nothing - in a quoted string, in a line comment - with nothing after it
+        # that would close it: the sections that follow the code in the file are still sections
+        ctx.feature('code_ends_with_an_opener_that_opens_nothing')
+        code = code.rstrip(b'\n') + b'\n' + rng.choice((b'open="[["\n', b"mark='[==['\n", b'x=1 -- see [[\n', b'// [=[\n', b'y=t[ [1]\n' if False else b'z="--[["\n'))
+    return code
 
 
 def observables(g):
@@ -422,6 +428,8 @@ def gates(m, tier):
               'code_object_of_another_version', 'version0_cart_with_foreign_code_object'):
         if f.get(k, 0) < 10:
             missed.append('%s seen %d times' % (k, f.get(k, 0)))
+    if f.get('code_ends_with_an_opener_that_opens_nothing', 0) < 5:
+        missed.append('code ending with an opener that opens nothing: %d' % f.get('code_ends_with_an_opener_that_opens_nothing', 0))
     for k in ('destination_before:nothing', 'destination_before:empty_file', 'destination_before:other_file', 'destination_before:older_cart',
               'loaded_saved_elsewhere_edited_saved_again'):
         if f.get(k, 0) < 3:
